@@ -47,9 +47,7 @@ theorem checkCfg_spec {U : UCfg} (hU : U.WF) {A : Ana} (hA : AnaOK U A) (fuel : 
       obtain ⟨hp, hs⟩ := mem_revEnum hm
       subst hp
       refine ⟨U.args, outs, by rw [findC_cons]; simp, hs, ?_⟩
-      have := List.mem_of_getElem? hs
-      rw [List.mem_append] at this
-      exact this.imp id fun h => ⟨rfl, h⟩
+      exact List.mem_of_getElem? hs
     have := bfs_spec hU hA fuel _ _ r hc hq h
     cases r with
     | ok c => exact hno
@@ -125,9 +123,7 @@ theorem accepted_no_conflict {U : UCfg} (hU : U.WF) {A : Ana} (hA : AnaOK U A) (
       obtain ⟨hp, hs⟩ := mem_revEnum hm
       subst hp
       refine ⟨U.args, outs, by rw [findC_cons]; simp, hs, ?_⟩
-      have := List.mem_of_getElem? hs
-      rw [List.mem_append] at this
-      exact this.imp id fun h => ⟨rfl, h⟩
+      exact List.mem_of_getElem? hs
     have he : EdgeDone U [(U.entry, U.args, outs)] (revEnum U.entry (U.succ U.entry ++ U.dsucc U.entry)) := by
       intro b row outs' hf i s hs
       rw [findC_cons] at hf
